@@ -699,13 +699,15 @@ fn read_calc_level(cur: &mut SourceCursor, song: &mut Song, max_priority: isize)
     // read operator and right value
     while cur.has_next() {
         let operator_index = cur.index;
+        let operator_line = cur.line;
         let (operator_ch, operator_priority) = match read_operator(cur) {
             Some(res) => res,
             None => break,
         };
         if operator_priority > max_priority {
-            // a looser operator belongs to the enclosing expression
+            // a looser operator belongs to the enclosing expression (the line breaks skipped on the way to it are read again there)
             cur.index = operator_index;
+            cur.line = operator_line;
             break;
         }
         // the right operand only takes operators that bind tighter than this one
